@@ -63,6 +63,11 @@ FLOORS = {
     'path:nonempty': (0.25, 'path'),
     'path:value-pred': (0.05, 'path'),
     'path:attr': (0.10, 'path'),
+    'path:attr-context': (0.10, 'path'),
+    'node:date-time': (0.10, 'node'),
+    'node:date-time-xsd11': (0.04, 'node'),
+    'node:date-time-special-year': (0.01, 'node'),
+    'schema:xsd1.1': (0.35, 'schema'),
 }
 
 XS, XSI = G.XS, G.XSI
@@ -95,6 +100,15 @@ def class_of(builtin: str, xsd: str):
     import elementpath.datatypes as dt
     c = _CLASS_BY_VERSION[xsd].get(builtin) or _CLASS[builtin]
     return getattr(dt, c) if isinstance(c, str) else c
+
+
+def wrong_version_class(builtin: str, xsd: str):
+    """the class of the OTHER XSD version for the version-dependent types (the *10 classes are subclasses of the
+    XSD 1.1 classes, so an isinstance test alone cannot tell a 1.0 value in a 1.1 schema), else None"""
+    import elementpath.datatypes as dt
+    if xsd == '1.1' and builtin in _CLASS_BY_VERSION['1.0']:
+        return getattr(dt, _CLASS_BY_VERSION['1.0'][builtin])
+    return None
 
 
 def collapse(s: str) -> str:
@@ -375,6 +389,7 @@ class Evaluator:
 
     def __init__(self, spec, schema):
         self.ns = namespaces_of(spec)
+        self.xsd = spec['xsd']       # the schema-less parser casts untyped text by the same XSD version
         self.proxy = schema.xpath_proxy if schema is not None else None
         self.parsers: dict = {}
         self.tokens: dict = {}
@@ -387,7 +402,8 @@ class Evaluator:
             parser = self.parsers.get(pk)
             if parser is None:
                 cls = parser_classes()[pidx][1]
-                parser = cls(namespaces=self.ns, schema=self.proxy) if with_schema else cls(namespaces=self.ns)
+                parser = cls(namespaces=self.ns, schema=self.proxy) if with_schema else \
+                    cls(namespaces=self.ns, xsd_version=self.xsd)
                 self.parsers[pk] = parser
             tok = self.tokens[key] = parser.parse(expr)
         return tok
@@ -433,8 +449,9 @@ def _literal_for(builtin: str, canonical: str) -> str | None:
         return f"xs:{fam}('{canonical}')"
     if fam == 'boolean':
         return f'{canonical}()'
-    if fam == 'date':
-        return f"xs:date('{canonical}')"
+    if builtin in G.DATE_TIME_TYPES or builtin in ('duration', 'dayTimeDuration', 'yearMonthDuration'):
+        # built by the same parser, i.e. with the XSD version of the schema
+        return f"xs:{builtin}('{canonical}')"
     if builtin in G.STRING_FAMILY + G.NAME_FAMILY + ('language', 'NMTOKEN'):
         if "'" in canonical:
             return None
@@ -495,6 +512,16 @@ def judge_nodes(case, rec: Recorder | None = None) -> list[Disc]:
             if sres is not None:
                 if sres['variety'] == 'atomic':
                     classes.append('type:' + sres['builtin'])
+                dt_item = sres if sres['variety'] == 'atomic' else sres['item'] if sres['variety'] == 'list' else None
+                if (dt_item is not None and dt_item['builtin'] in G.DATE_TIME_TYPES) or (
+                        sres['variety'] == 'union' and any(m['variety'] == 'atomic' and m['builtin'] in G.DATE_TIME_TYPES
+                                                           for m in sres['members'])):
+                    classes.append('node:date-time')
+                    if xsd == '1.1':
+                        classes.append('node:date-time-xsd11')
+                    lex = (r['lexical'] or '').strip()
+                    if lex.startswith(('-0', '-1', '0000', '1000', '1234')) and not lex.startswith(('--', '-0-')):
+                        classes.append('node:date-time-special-year')
                 if sres['variety'] in ('list', 'union'):
                     classes.append('node:' + sres['variety'])
                     nontrivial = True
@@ -574,11 +601,15 @@ def _judge_node(ev, b, spec, schema, r, pidx, xsd) -> list[Disc]:
             else:
                 for (bi, cv, k), g in zip(exp, got):
                     cls = class_of(bi, xsd)
-                    ok_cls = isinstance(g, cls) and not (cls is not bool and isinstance(g, bool)) \
-                        and not isinstance(g, UntypedAtomic)
+                    other = wrong_version_class(bi, xsd)
+                    # version-dependent classes: the metaclass makes isinstance() true across versions, use the MRO
+                    is_inst = cls in type(g).__mro__ if bi in _CLASS_BY_VERSION['1.0'] else isinstance(g, cls)
+                    ok_cls = is_inst and not (cls is not bool and isinstance(g, bool)) \
+                        and not isinstance(g, UntypedAtomic) and not (other is not None and other in type(g).__mro__)
                     if not ok_cls:
                         discs.append(Disc(f'C20/typed/{container}/class/{k}',
-                                          f'instance of {cls.__name__} (xs:{bi})', f'{type(g).__name__} {g!r}', where))
+                                          f'instance of {cls.__name__} (xs:{bi}, XSD {xsd})',
+                                          f'{type(g).__name__} {g!r}', where))
                     try:
                         gc = canon_py(g)
                     except Exception as e:
